@@ -608,6 +608,67 @@ mod store {
         println!("{{\"found\": false, \"evaluations\": 10, \"searched\": \"10 operations (get / set / del of present, deleted, absent and empty keys, merge, through the handle and a clone) after the store object was dropped; directory listing compared\"}}");
     }
 
+    /// C04 (bounded, schedules chosen by the OS): writer threads, reader threads and a merging thread on one store with
+    /// tiny files.  Each key has ONE writer that writes increasing counters (and deletes now and then), so every read
+    /// can be checked against real time: the value read must be at least the last write that had COMPLETED when the
+    /// read started and at most the last write that had STARTED when the read ended (a deleted key may read None in
+    /// the same window).  Any error or panic of an operation is a finding.
+    pub fn concurrent_search(seed: u64, millis: u64) {
+        use std::sync::atomic::{AtomicBool, AtomicI64, AtomicU64, Ordering::SeqCst};
+        use std::sync::Arc;
+        let dir = tempfile::tempdir().unwrap();
+        let mut c = conf(dir.path(), 200);
+        c.concurrency(3).merge_threshold_small_file(u64::MAX).merge_threshold_dead_bytes(0).merge_threshold_fragmentation(0.0);
+        let kv = c.open().unwrap();
+        const NW: usize = 3; const KPW: usize = 2; const NR: usize = 3;
+        // per key: started / completed sequence numbers; value = seq as decimal, seq odd-multiples-of-7 are deletes
+        let started: Arc<Vec<AtomicI64>> = Arc::new((0..NW * KPW).map(|_| AtomicI64::new(0)).collect());
+        let completed: Arc<Vec<AtomicI64>> = Arc::new((0..NW * KPW).map(|_| AtomicI64::new(0)).collect());
+        let stop = Arc::new(AtomicBool::new(false));
+        let ops = Arc::new(AtomicU64::new(0));
+        let finding: Arc<std::sync::Mutex<Option<(String, String)>>> = Arc::new(std::sync::Mutex::new(None));
+        let is_del = |s: i64| s % 7 == 0;
+        let mut ths = Vec::new();
+        for w in 0..NW {
+            let h = kv.get_handle(); let (st, co, stop, ops, finding) = (started.clone(), completed.clone(), stop.clone(), ops.clone(), finding.clone());
+            ths.push(std::thread::spawn(move || { let mut x = seed.wrapping_add(w as u64 + 1).wrapping_mul(6364136223846793005);
+                while !stop.load(SeqCst) { x = x.wrapping_mul(6364136223846793005).wrapping_add(1442695040888963407); let k = w * KPW + ((x >> 33) as usize % KPW);
+                    let s = st[k].load(SeqCst) + 1; st[k].store(s, SeqCst);
+                    let key = format!("key{}", k);
+                    let r = if is_del(s) { h.del(b(&key)).map(|_| ()) } else { h.set(b(&key), b(&format!("{}", s))) };
+                    if let Err(e) = r { *finding.lock().unwrap() = Some((format!("writer {}: op #{} on {} failed: {}", w, s, key, e), "every operation completes".into())); stop.store(true, SeqCst); return; }
+                    co[k].store(s, SeqCst); ops.fetch_add(1, SeqCst); } }));
+        }
+        for r in 0..NR {
+            let h = kv.get_handle(); let (st, co, stop, ops, finding) = (started.clone(), completed.clone(), stop.clone(), ops.clone(), finding.clone());
+            ths.push(std::thread::spawn(move || { let mut x = seed.wrapping_add(100 + r as u64).wrapping_mul(6364136223846793005);
+                while !stop.load(SeqCst) { x = x.wrapping_mul(6364136223846793005).wrapping_add(1442695040888963407); let k = (x >> 33) as usize % (NW * KPW);
+                    let lo = co[k].load(SeqCst);
+                    let got = h.get(b(&format!("key{}", k)));
+                    let hi = st[k].load(SeqCst);
+                    ops.fetch_add(1, SeqCst);
+                    // the read takes effect after some write s* of this key with lo <= s* <= hi (0 = nothing written yet)
+                    let ok = match &got {
+                        Err(_) => false,
+                        Ok(Some(v)) => { let s: i64 = String::from_utf8_lossy(v).parse().unwrap_or(-1); s >= 1 && !is_del(s) && lo <= s && s <= hi },
+                        Ok(None) => (lo..=hi).any(|s| s == 0 || is_del(s)),
+                    };
+                    if !ok { *finding.lock().unwrap() = Some((format!("reader {}: get key{} returned {:?} although write #{} had completed before the read started and write #{} was the last started when it ended (deletes are the multiples of 7)", r, k, got.as_ref().map(|o| o.as_ref().map(|v| String::from_utf8_lossy(v).to_string())), lo, hi),
+                        "a value between those two writes".into())); stop.store(true, SeqCst); return; } } }));
+        }
+        { let h = kv.get_handle(); let (stop, finding) = (stop.clone(), finding.clone());
+          ths.push(std::thread::spawn(move || { while !stop.load(SeqCst) { if let Err(e) = h.verif_merge() { *finding.lock().unwrap() = Some((format!("merge failed: {}", e), "every operation completes".into())); stop.store(true, SeqCst); return; } std::thread::sleep(std::time::Duration::from_millis(3)); } })); }
+        let t0 = std::time::Instant::now();
+        while t0.elapsed().as_millis() < millis as u128 && !stop.load(SeqCst) { std::thread::sleep(std::time::Duration::from_millis(10)); }
+        stop.store(true, SeqCst);
+        let mut panicked = false;
+        for t in ths { if t.join().is_err() { panicked = true; } }
+        let f = finding.lock().unwrap().clone();
+        if panicked && f.is_none() { report("concurrent", "C04", &format!("seed {}: {} writers x {} keys, {} readers, 1 merger, max_file_size 200", seed, NW, KPW, NR), "a thread panicked inside a store operation".into(), "no panic"); }
+        if let Some((obs, exp)) = f { report("concurrent", "C04", &format!("seed {}: {} writers x {} keys, {} readers, 1 merger, max_file_size 200", seed, NW, KPW, NR), obs, &exp); }
+        println!("{{\"found\": false, \"evaluations\": {}, \"searched\": \"{} operations by {} writer, {} reader and 1 merging thread in {} ms (single writer per key, reads checked against real-time bounds)\"}}", ops.load(SeqCst), ops.load(SeqCst), NW, NR, millis);
+    }
+
     /// generic history runner: ops are strings "set k v" / "del k" / "get k" / "merge" / "reopen" / "precreate-data N" / "precreate-hint N"
     pub fn run_history(max: u64, mode: &str, ops: &[&str], label: &str) {
         let dir = tempfile::tempdir().unwrap();
@@ -821,6 +882,7 @@ fn main() {
         Some("frame-search") => frame_search(),
         Some("store-torn-append") => store::torn_append(),
         Some("store-closed") => store::closed_search(),
+        Some("store-concurrent") => store::concurrent_search(a.get(2).map(|s| s.parse().unwrap()).unwrap_or(0), a.get(3).map(|s| s.parse().unwrap()).unwrap_or(1500)),
         Some("store-crash-run") => { let ops: Vec<&str> = a[5].split(';').map(|s| s.trim()).filter(|s| !s.is_empty()).collect(); store::crash_run(&a[2], a[3].parse().unwrap(), &a[4], &ops); }
         Some("store-crash-verify") => { let ops: Vec<&str> = a[5].split(';').map(|s| s.trim()).filter(|s| !s.is_empty()).collect(); store::crash_verify(&a[2], a[3].parse().unwrap(), &a[4], &ops, a[6].parse().unwrap(), a.get(7).map(|s| s.as_str()).unwrap_or("")); }
         Some("store-search") => store::search(a.get(2).map(|s| s.parse().unwrap()).unwrap_or(0)),
